@@ -58,6 +58,11 @@ MetaScripts ==
                ForgeOp(0, TokOf(ka[2], S("valid", ka[2], ka[1]))), OpsOp(p1), V("v"), OpsOp(IF p1 = "openssl" THEN "gnutls" ELSE "openssl"), V("v") >>
              : mv \in MetaVariants, pv \in {0, 1} }
           : ka \in MetaBase, pl \in Providers, p1 \in Providers }
+\* the provider is the process's: a selection made on one thread is what every other thread sees and uses
+OpsThreadOp(n) == [op |-> "OpsThread", name |-> n]
+ThreadScripts ==
+  { <<OpsOp(a), OpsThreadOp(b), OpsThreadOp(NONE), OpsOp(c), OpsThreadOp(NONE)>> :
+      a \in {"openssl", "gnutls"}, b \in {NONE, "openssl", "gnutls", "GnuTLS", "x"}, c \in {"openssl", "gnutls", "nope"} }
 \* altered after signing
 AlterScripts ==
   { << LoadOp(<<ka[1]>>), CNewOp, CSetKeyOp(ka[2], 0), ForgeOp(0, [TokOf(ka[2], S("valid", ka[2], ka[1])) EXCEPT !.alter = alt]),
@@ -110,9 +115,9 @@ NameOps == { OpsOp(n) : n \in Names } \cup { OpsTOp(i) : i \in 0..5 } \cup { Ops
 NameScripts == { <<a, b>> : a \in NameOps, b \in NameOps } \cup { <<a, b, c>> : a \in {OpsOp("gnutls"), OpsTOp(2)}, b \in NameOps, c \in {OpsOp("openssl"), OpsOp("zz")} }
 
 \* (families, not their union: see ISpecFam in Interp.tla)
-MCSpec == ISpecFam(<<VerdictScriptsOK, AlterScripts, TokenScripts, RandScripts, NameScripts, HistoryScripts, StaleScripts, MetaScripts>>)
+MCSpec == ISpecFam(<<VerdictScriptsOK, AlterScripts, TokenScripts, RandScripts, NameScripts, HistoryScripts, StaleScripts, MetaScripts, ThreadScripts>>)
 
 \* on the specification: switching happens only on exact names / ids of compiled providers
 SwitchOnlyExact ==
-  [][ ops' # ops => (pc <= Len(script) /\ ((script[pc].op = "Ops" /\ script[pc].name = ops') \/ (script[pc].op = "OpsT" /\ ProviderId[ops'] = script[pc].id))) ]_ivars
+  [][ ops' # ops => (pc <= Len(script) /\ ((script[pc].op \in {"Ops", "OpsThread"} /\ script[pc].name = ops') \/ (script[pc].op = "OpsT" /\ ProviderId[ops'] = script[pc].id))) ]_ivars
 =============================================================================
